@@ -79,8 +79,10 @@ impl<const N: usize> Ex<N> {
                 self.stats.probe(Probe::DropPanicNotFired);
             }
         }
+        let failed_in_op = self.fail.is_some();
         self.check_hook_violations(out.own);
         let mut all_items: [Vec<Item>; 2] = [Vec::new(), Vec::new()];
+        let mut observed = [false; 2];
         for b in 0..2 {
             if self.fail.is_some() {
                 break;
@@ -106,12 +108,42 @@ impl<const N: usize> Ex<N> {
                 self.check_mut_views(b, &items);
             }
             all_items[b] = items;
+            observed[b] = true;
+        }
+        let _ = &observed;
+        if self.fail.is_some() && !failed_in_op {
+            // complete the observation (read-only) so that the failure can be diagnosed
+            for b in 0..2 {
+                if !observed[b] && self.bufs[b].is_some() {
+                    all_items[b] = self.items(b);
+                    observed[b] = true;
+                }
+            }
         }
         if self.fail.is_none() {
             self.check_hook_violations(out.own);
         }
         if self.fail.is_none() {
             self.check_conservation(self.faulted, out.own);
+        } else if self.faulted.is_none() && !failed_in_op && observed[0] && observed[1] {
+            // the step already failed (typically: contents differ from the model). If elements
+            // have also vanished — alive, but neither in a buffer as observed nor with the caller —
+            // the same failure is an ownership failure too (C03).
+            let mut owned: Vec<u32> = all_items[0].iter().chain(all_items[1].iter()).map(|i| i.id).collect();
+            owned.extend(self.hand.iter().map(|t| t.id));
+            owned.sort_unstable();
+            let lost: Vec<u32> = H.with(|h| {
+                let h = h.borrow();
+                h.ents.iter().enumerate().skip(1).filter(|(id, e)| e.drops == 0 && !e.leaked && owned.binary_search(&(*id as u32)).is_err()).map(|(id, _)| id as u32).collect()
+            });
+            if !lost.is_empty() {
+                if let Some(f) = &mut self.fail {
+                    if f.classes & (cls::CONTENTS | cls::RET) != 0 && f.classes & cls::HARNESS == 0 {
+                        f.classes |= cls::LEDGER;
+                        f.msg = format!("{} [also: elements {:?} are alive but neither in a buffer nor with the caller (leaked)]", f.msg, &lost[..lost.len().min(8)]);
+                    }
+                }
+            }
         }
         // RELOC (C20): only for calls that returned normally
         if self.fail.is_none() && self.faulted.is_none() && !self.window_panicked {
